@@ -116,3 +116,33 @@ Theorem C16_close_not_disturbed_by_others :
   forall tid s a s', closer_step tid a = false -> closer_start tid a = false -> lstep s a = Some s' -> kr tid s' = kr tid s.
 Proof. exact (closer_untouched p_join_sender p_join_reader). Qed.
 Print Assumptions C16_close_not_disturbed_by_others.
+
+(* ---------------------------------------------------------------------------------------------------------
+   Two sessions on one object (Model/Reconnect.v): close() of the first session, connect() again on the same
+   object -- from inside the callback that closed, or from another thread -- and the first session's reader
+   thread winding down at any point in between or afterwards.  With what the translator reads off close() and
+   connect() today (Gen/Params.v: close() clears the old protocol's callback, the wrapper tests `_closed`),
+   the user's disconnect callback is not invoked, for EVERY order of these steps. *)
+From Ynca Require Import Model.Reconnect Proofs.ReconnectFacts.
+
+Theorem C16_planned_close_then_reconnect_never_reports_a_disconnect :
+  forall tr s, rrun gen_rcfg rinit tr = Some s -> r_user_calls s = O.
+Proof. exact (clears_no_user_call gen_rcfg gen_close_clears). Qed.
+Print Assumptions C16_planned_close_then_reconnect_never_reports_a_disconnect.
+
+(* the `_closed` flag alone is enough as long as the object is not connected again ... *)
+Theorem C16_closed_flag_enough_without_reconnect :
+  forall tr s, ~ In RConnect tr -> rrun gen_rcfg rinit tr = Some s -> r_user_calls s = O.
+Proof. exact (flag_enough_without_reconnect gen_rcfg gen_wrapper_checks). Qed.
+Print Assumptions C16_closed_flag_enough_without_reconnect.
+
+(* ... and not otherwise: a close() that relied on the flag alone would report the planned close as a disconnect
+   of the new session (the history is the replay) *)
+Theorem C16_closed_flag_alone_refuted :
+  exists tr s, rrun cfg_flag_only rinit tr = Some s /\ r_user_calls s = 1%nat.
+Proof. exact flag_only_refuted. Qed.
+Print Assumptions C16_closed_flag_alone_refuted.
+
+Example C16_reconnect_nonvacuous :
+  exists s, rrun gen_rcfg rinit [RClose; RConnect; ROldRead; ROldCall] = Some s /\ r_reconnected s = true /\ r_old s = ODone.
+Proof. eexists. split; [vm_compute; reflexivity|split; reflexivity]. Qed.
